@@ -24,6 +24,7 @@ RUN = "Run_C04"
 THEOREMS = "Props/C04.v"
 ANCHORS = [
     ("pipefunc/map/_run_info.py", ["RunInfo", "_maybe_str_to_tuple", "_maybe_tuple_to_str", "_construct_internal_shapes",
+                                   "_normalize_storage_keys",
                                    "_init_arrays", "_maybe_array_path", "_output_path", "_input_path", "_defaults_path"]),
     ("pipefunc/map/_load.py", ["load_outputs", "load_xarray_dataset"]),
     ("pipefunc/map/_run.py", ["_maybe_persist_memory", "_load_from_store", "_maybe_load_array", "_dump_single_output",
@@ -36,12 +37,16 @@ ANCHORS = [
     ("pipefunc/map/_shapes.py", ["map_shapes"]),
     ("pipefunc/_utils.py", ["dump", "load", "at_least_tuple"]),
 ]
-RULE = ("valid map requests of the shared generator (DAGs of 1..4 structural functions, tuple outputs, reductions, internal "
-        "axes, generators, list/ndarray inputs, bound/default scalars; internal shapes as tuple or bare int) x storage "
-        "(each backend uniformly, per-output dict mixes keyed by str / tuple output names with and without the '' default) x "
-        "persist_memory x {same interpreter, fresh /venv/bin/python child started after the run's manager processes are "
-        "gone} x two successive loads; non-trivial = a mapped output with >=2 axes, a ':' axis or an internal axis; "
-        "distinct by (specs, shapes, storage, fresh, persist)")
+RULE = ("hand-written corpus + valid map requests of the shared generator (DAGs of 1..4 structural functions, tuple outputs, "
+        "reductions, internal axes at any position, generators, list/ndarray inputs, bound/default scalars; internal shapes as "
+        "tuple or bare int) x storage (each backend uniformly, per-output dict mixes keyed by str / 1-tuple / tuple output "
+        "names with and without the '' default; pipelines that would start many manager processes per reload are kept small) "
+        "x persist_memory x {the interpreter that ran the request, a fresh /venv/bin/python started after every run worker "
+        "has exited, i.e. after all manager processes are gone} x two successive loads; 1/5 of the cases additionally edit "
+        "run_info.json between run and reload (deleted / ill-typed fields, another storage or version: error branches of "
+        "RunInfo.load, nothing demanded by spec_ok); observed: load_outputs per output, RunInfo.load field-wise, inputs, "
+        "defaults, load_xarray_dataset dims, folder listing, folder unchanged; non-trivial = a mapped output with >=2 axes, "
+        "a ':' axis or an internal axis; distinct by (specs, shapes, storage, fresh, persist)")
 ASSUMPTIONS = ["cloudpickle round-trips the values used (strings, lists, object ndarrays, dicts keyed by int tuples)",
                "JSON text layout is not modelled: `json` is the value json.load returns for what json.dump wrote",
                "the run folder is not moved between run and reload, and is given as an absolute normalised path",
@@ -392,6 +397,9 @@ def _gen_storage(rng, c):
         d.insert(rng.randrange(len(d) + 1), ["", rng.choice(STORAGES)])
     if not d:
         d.append(["", rng.choice(STORAGES)])
+    for kv in d:                      # an output name written as a 1-tuple names the same output
+        if isinstance(kv[0], str) and kv[0] and rng.random() < 0.15:
+            kv[0] = [kv[0]]
     return {"dict": d}
 
 
@@ -505,7 +513,8 @@ def _kinds(c):
 
 def distribution(c):
     return {"storage": _kinds(c), "fresh": bool(c.get("fresh")), "persist": bool(c.get("persist", True)),
-            "xr_ref": c.get("xr"), "tuple_key": any(isinstance(k, list) for k, _ in c["st"].get("dict", [])),
+            "xr_ref": c.get("xr"), "tuple_key": any(isinstance(k, list) and len(k) > 1 for k, _ in c["st"].get("dict", [])),
+            "one_tuple_key": any(isinstance(k, list) and len(k) == 1 for k, _ in c["st"].get("dict", [])),
             "int_internal": bool(c.get("func_int") or c.get("user_int")), "nfuncs": len(c["funcs"]),
             "edited": (c["mut"][0] + ":" + c["mut"][1]) if c.get("mut") else "no",
             "internal_first": not _internal_after_mapped(c)}
